@@ -3,6 +3,7 @@ Lemmas about the lexical path algebra (Model/Path.lean): joining a plain file na
 directory and normalising gives exactly "normalised directory / file name".
 -/
 import PdfVerif.Model.Path
+import PdfVerif.Model.Image
 
 namespace PdfVerif.PathLemmas
 open PdfVerif PdfVerif.Path PdfVerif.ImageName
